@@ -2,6 +2,7 @@ package interpreter
 
 import (
 	"fmt"
+	"reflect"
 )
 
 // BindingSource identifies the origin of a variable binding in an Environment.
@@ -60,12 +61,48 @@ func (e *Environment) Snapshot() *Environment {
 		chain = append(chain, scope)
 	}
 	snap := NewEnvironment()
+	copied := make(map[uintptr]interface{})
 	for idx := len(chain) - 1; idx >= 0; idx-- {
 		for name, b := range chain[idx].vars {
-			snap.vars[name] = b
+			snap.vars[name] = binding{value: copyValue(b.value, copied), source: b.source}
 		}
 	}
 	return snap
+}
+
+// copyValue returns a copy of a GlyphLang value that shares no object or array
+// with the original. Objects and arrays are Go maps and slices which field and
+// index assignment write in place, so code running in another goroutine needs
+// its own. Two bindings of one object stay one object in the copy (copied maps
+// the original's address to its copy), which also ends the walk on a cycle.
+// Everything else - scalars, functions, provider handles - is shared as it is.
+func copyValue(v interface{}, copied map[uintptr]interface{}) interface{} {
+	switch x := v.(type) {
+	case map[string]interface{}:
+		if x == nil {
+			return x
+		}
+		key := reflect.ValueOf(x).Pointer()
+		if c, ok := copied[key]; ok {
+			return c
+		}
+		c := make(map[string]interface{}, len(x))
+		copied[key] = c
+		for k, e := range x {
+			c[k] = copyValue(e, copied)
+		}
+		return c
+	case []interface{}:
+		if x == nil {
+			return x
+		}
+		c := make([]interface{}, len(x))
+		for i, e := range x {
+			c[i] = copyValue(e, copied)
+		}
+		return c
+	}
+	return v
 }
 
 // Define adds a new variable to the current environment as a user-declared
